@@ -77,12 +77,13 @@ for _p in ("C01", "C02", "C03", "C04", "C05", "C06", "C07", "C19"):
         "assumptions": ["identity converter over 1-4 version labels; schemas of the generated family (sgen)"],
     }
 
+PROPS["C19"]["lean_modules"] = ["SMD.Properties.C19", "SMD.Properties.FindingWitnesses"]
 PROPS["C13"]["domains"].append({"name": "sch", "n_quick": 150, "n_thorough": 3000})
 PROPS["C19"]["domains"].append({"name": "flt", "n_quick": 1500, "n_thorough": 30000})
 PROPS["C20"] = {
     "domains": [{"name": "rec", "n_quick": 3000, "n_thorough": 60000},
                 {"name": "upd", "n_quick": 800, "n_thorough": 20000}],
-    "lean_modules": ["SMD.Properties.C20"],
+    "lean_modules": ["SMD.Properties.C20", "SMD.Properties.FindingWitnesses"],
     "theorems": [],
     "assumptions": ["identity converter; lossless renaming converters are future work of this check (see DESIGN)"],
 }
@@ -116,7 +117,7 @@ PROPS["C09"] = {
     # the model is a pure function of the op line and the explicit state: any op of these domains on
     # which the implementation differs from it is an unexplained dependence
     "all_ops": True,
-    "lean_modules": ["SMD.Properties.C09", "SMD.Spec.Facts", "SMD.Generated.MapRanges"],
+    "lean_modules": ["SMD.Properties.C09", "SMD.Spec.Facts", "SMD.Generated.MapRanges", "SMD.Properties.FindingWitnesses"],
     "theorems": ["SMD.C09.all_map_ranges_covered"],
     "assumptions": ["partial: state left in pooled walkers and freelist reuse are runtime matters decided observationally by the repeat-call judges (every op repeated after unrelated, failing and conflicting calls and after GC); the theorem covers the iteration order of every Go map, against a table regenerated from the source on every run"],
     "explanation": "partial by proof",
